@@ -283,3 +283,110 @@ def ob_tool_stateless(names: tuple[str, ...]):
         return Outcome.ok("frames", count=n)
 
     return fn
+
+
+# ---- mutable module-level objects handed out by functions (process state that callers may edit) -------------------
+_VH_SCHEMAS = {
+    "route": '===SCH===\nMETA:\n  TYPE::PROTOCOL_DEFINITION\n  VERSION::"1.0"\nFIELDS:\n  NAME::["x"∧REQ→§FOO]\n===END===\n',
+    "plain": '===SCH===\nMETA:\n  TYPE::PROTOCOL_DEFINITION\n  VERSION::"1.0"\nFIELDS:\n  NAME::["x"∧REQ]\n===END===\n',
+    "warn": '===SCH===\nMETA:\n  TYPE::PROTOCOL_DEFINITION\n  VERSION::"1.0"\nPOLICY:\n  VERSION::"1.0"\n  UNKNOWN_FIELDS::WARN\n  TARGETS::[§BAR]\nFIELDS:\n  NAME::["x"∧REQ]\n===END===\n',
+    "route_bar": '===SCH===\nMETA:\n  TYPE::PROTOCOL_DEFINITION\n  VERSION::"1.0"\nFIELDS:\n  NAME::["x"∧REQ→§BAR]\n===END===\n',
+}
+_VH_DOCS = {
+    "plain": '===INST===\nSCH:\n  NAME::"x"\n===END===\n',
+    "target": '===INST===\nSCH[→§FOO]:\n  NAME::"x"\n===END===\n',
+    "extra": '===INST===\nSCH:\n  NAME::"x"\n  EXTRA::1\n===END===\n',
+}
+
+
+def _vh_run(calls):
+    """run the (schema key, doc key) calls in order in THIS process; return the observable result of the last one"""
+    from octave_mcp.core.parser import parse
+    from octave_mcp.core.schema_extractor import extract_schema_from_document
+    from octave_mcp.core.validator import Validator
+
+    out = None
+    for sk, dk in calls:
+        sch = extract_schema_from_document(parse(_VH_SCHEMAS[sk]))
+        v = Validator(schema=None)
+        errs = v.validate(parse(_VH_DOCS[dk]), strict=False, section_schemas={sch.name: sch})
+        log = getattr(v, "routing_log", None)
+        entries = getattr(log, "entries", None) or []
+        out = (sorted((e.code, getattr(e, "field_path", getattr(e, "path", ""))) for e in errs), sorted((str(getattr(x, "source_path", "")), str(getattr(x, "target_name", "")), bool(getattr(x, "constraint_passed", None))) for x in entries), sch.policy.unknown_fields if sch.policy else None, sorted(sch.policy.targets) if sch.policy else None)
+    return out
+
+
+def _vh_child(calls):
+    """the same in a forked child (fresh copy of the process state as it is now)"""
+    import os
+    import pickle
+
+    r, w = os.pipe()
+    pid = os.fork()
+    if pid == 0:
+        try:
+            os.close(r)
+            try:
+                data = pickle.dumps(("ok", _vh_run(calls)))
+            except BaseException as e:  # noqa: BLE001
+                data = pickle.dumps(("raised", f"{type(e).__name__}: {e}"))
+            os.write(w, data)
+        finally:
+            os._exit(0)
+    os.close(w)
+    chunks = []
+    while True:
+        b = os.read(r, 65536)
+        if not b:
+            break
+        chunks.append(b)
+    os.close(r)
+    os.waitpid(pid, 0)
+    return pickle.loads(b"".join(chunks))
+
+
+def probe_validator_history():
+    """a (schema, document) validation after another one in the same process vs alone in a fresh child: same errors, routing
+    entries and extracted policy. -> (differs, text)"""
+    bad = []
+    pairs = [(a, b) for a in [(s, d) for s in _VH_SCHEMAS for d in _VH_DOCS] for b in [(s, d) for s in _VH_SCHEMAS for d in _VH_DOCS]]
+    for a, b in pairs:
+        alone = _vh_child([b])
+        after = _vh_child([a, b])
+        if alone != after:
+            bad.append(f"validate(schema {b[0]!r}, document {b[1]!r}) alone: {alone}; after validate(schema {a[0]!r}, document {a[1]!r}) in the same process: {after}")
+            if len(bad) > 2:
+                break
+    return bool(bad), "; ".join(bad[:2])[:900] or f"{len(pairs)} ordered pairs of validations: the second is unaffected by the first"
+
+
+def replay_validator_history():
+    return probe_validator_history()
+
+
+def ob_no_global_escape(entry_keys: list[str], allow: dict[str, str]):
+    """FRAME: no function in the closure hands out a mutable module-level object (`return GLOBAL`, `return GLOBAL.get(k)` ...),
+    except the allow-listed ones (function key -> why it is harmless). A new escape is process state in its callers' hands;
+    the validation-history probe decides (differs => refuted with the two calls, equal => undecided)."""
+    from verif.common import shape_verdict
+
+    def fn(ctx: Ctx) -> Outcome:
+        p = package()
+        problems, n = [], 0
+        for ent in entry_keys:
+            if ent not in p.funcs:
+                return Outcome.undecided("frames", f"{ent} not found in the working tree")
+            for k in p.reachable(ent):
+                f = p.funcs.get(k)
+                if not f:
+                    continue
+                n += 1
+                for e in f.effects:
+                    if e.kind == "global_escape" and k not in allow:
+                        problems.append(f"{k}@L{e.lineno}: {e.detail}")
+        problems = sorted(set(problems))
+        if problems:
+            return shape_verdict("frames", problems, probe_validator_history, max(n, 1), {"runner": "props.framesobs:replay_validator_history", "args": {}})
+        return Outcome.ok("frames", count=max(n, 1), allowed=allow)
+
+    return fn
